@@ -195,7 +195,8 @@ Qed.
 Lemma fst_assert_applies g (c : @cfg comp) : fst (assert_applies ceqb rmatch g c) = c.
 Proof.
   unfold assert_applies. destruct (c_any c && (c_should c || c_only c)); [reflexivity|].
-  destruct (negb (required_present _)); [reflexivity|]. destruct (negb (behavior_consistent _)); reflexivity.
+  destruct (negb (required_present _)); [reflexivity|]. destruct (negb (behavior_consistent _)); [reflexivity|].
+  destruct (c_any c && removed_unknown ceqb g _); reflexivity.
 Qed.
 
 (* the configuration a rule object is left with after an evaluation evaluates like the original one,
